@@ -4,9 +4,9 @@
   Every table used below (`nlpWrapper`, `ocpWrapper`, `functional`, `nlpTE`, `ocpTE`, `dlNLP`,
   `dlOCP`, `abiNLP`, `abiOCP`, the constructor check lists) is regenerated from /repo's C++ on
   every run (`Alpaqa/Gen/C20.lean`, translator `gen/gen_c20.py`); the table theorems are decided
-  by the kernel on what the source says *now*.  Where the tree violates a table theorem, that
-  entry is excluded **by name** in `knownDeviations.*` (an open finding, reproduced on the real
-  code by `checks/c20.py`), so any other deviation breaks the proof.
+  by the kernel on what the source says *now*.  No entry is excluded at present; should the tree
+  violate a table theorem again, the entry is to be excluded **by name** (an open finding,
+  reproduced on the real code by `checks/c20.py`), so that any other deviation breaks the proof.
 
   The counter block is a hand model (`Alpaqa/Model/C20.lean`), proved equal to a heap-free tally
   specification for every operation sequence; the bodies it models (`evaluations->reset()`, cloning
@@ -20,22 +20,12 @@ import Alpaqa.Gen.C20
 namespace Alpaqa.Props.C20
 open Alpaqa.C20 Alpaqa.Gen.C20
 
-/-! ## Known deviations of the tree (each one an open finding, see checks/c20.py)
+/-! ## Known deviations of the tree
 
-  Findings F1–F7 of the first run have been repaired in /repo (patches under /verif/fixes); the
-  theorems below state the repaired behaviour without exclusions.  Two findings are still open
-  (F8, F9).  Coverage of the tables (nothing deleted / duplicated) and the restatement of
-  `flags_truthful` against the generated tables are in `Props/C20_Coverage.lean`. -/
-
-/-- F8: `DLControlProblem` declares neither `eval_proj_diff_g` nor `eval_proj_multipliers`, which
-    `ControlProblemVTable` requires, and the C ABI has no members for them. -/
-def knownDeviations.dlMissingRequired : List String := ["eval_proj_diff_g", "eval_proj_multipliers"]
-
-/-- F9 (open): `DLControlProblem` forwards the optional vtable entries `eval_h` / `eval_h_N` to the
-    table members of the same name but has no `provides_eval_h` / `provides_eval_h_N`: a plug-in
-    that leaves them null is reported as providing them, and calling them jumps through the null
-    pointer (reproduced on the real code by `checks/c20.py`, key C20-F9). -/
-def knownDeviations.dlNoProvides : List String := ["eval_h", "eval_h_N"]
+  Findings F1–F9 have been repaired in /repo (patches under /verif/fixes); the theorems below state
+  the repaired behaviour without exclusions: no entry is excluded by name any more.  Coverage of
+  the tables (nothing deleted / duplicated) and the restatement of `flags_truthful` against the
+  generated tables are in `Props/C20_Coverage.lean`. -/
 
 /-! ## 1. `forward_transparent`: table theorems -/
 
@@ -159,9 +149,8 @@ theorem dl_provides_tests_called :
   decide
 
 /-- every optional vtable entry that the loader forwards unguarded has a `provides_` test, so the
-    type-erased layer never calls a null table member of an *optional* function — except the
-    entries in `knownDeviations.dlNoProvides` (F9, open).  Required / optional is read off the
-    generated vtable tables.  (`dl_optional_linked` in `Props/C20_Coverage.lean` sharpens this:
+    type-erased layer never calls a null table member of an *optional* function (no exception:
+    former finding F9 is repaired).  Required / optional is read off the generated vtable tables.  (`dl_optional_linked` in `Props/C20_Coverage.lean` sharpens this:
     the test is on the very member that is called.) -/
 theorem dl_optional_guarded :
     dlNLP.fwd.all (fun e => e.guarded ||
@@ -169,19 +158,17 @@ theorem dl_optional_guarded :
       dlNLP.prov.any (·.method == e.method)) = true ∧
     dlOCP.fwd.all (fun e =>
       (match ocpTE.find e.method with | some v => v.required | none => false) ||
-      knownDeviations.dlNoProvides.contains e.method ||
       dlOCP.prov.any (·.method == e.method)) = true := by decide
 
 /-- every function pointer of the C-ABI tables defaults to `nullptr` (so "omitted" is well-defined) -/
 theorem abi_members_defaulted :
     abiNLP.all (·.hasDefault) = true ∧ abiOCP.all (·.hasDefault) = true := by decide
 
-/-- the loader classes declare (or inherit from `BoxConstrProblem`) every required vtable entry —
-    except the entries in `knownDeviations.dlMissingRequired` (F8, open) -/
+/-- the loader classes declare (or inherit from `BoxConstrProblem`) every required vtable entry
+    (no exception: former finding F8 is repaired) -/
 theorem dl_declares_required :
     nlpRequired.all (fun f => dlNLP.declared.contains f || boxConstrDeclared.contains f) = true ∧
-    (ocpRequired.filter fun f => !knownDeviations.dlMissingRequired.contains f).all
-      (dlOCP.declared.contains ·) = true := by decide
+    ocpRequired.all (dlOCP.declared.contains ·) = true := by decide
 
 /-! ### Consequence for capability flags seen *through* the counting wrapper -/
 
